@@ -29,17 +29,32 @@ theorem stream_events_docs (moreEnd : Bool) (vs : List JV) :
   have := Emits.thenRuns he (runs_end so hp)
   simpa using run_of_Runs this
 
-/-- A truncated or malformed document: after any complete documents `vs`, for every proper
+/-- `ttokens v` is the decoder's token list for `v` with each token tagged: does it complete a
+    value (a scalar in value position, a closing `]` / `}`)? -/
+theorem tagged_tokens (v : JV) : (ttokens v).map Prod.fst = tokens v := ttokens_fst v
+
+/-- A truncated or malformed document: after any complete documents `vs`, for EVERY proper
     prefix `pre` of the tokens of a document `v` (non-empty, or empty with the decoder
     reporting an error rather than a clean end), the events emitted are all events of `vs`,
-    then a prefix of the events of `v`, then one error — no panic, no spurious event,
+    then exactly the first `n` events of `v`, `n` = the number of value-completing tokens in
+    `pre` — every event determined before the cut, and no other — then one error. No panic,
     whatever `More()` answers at the cut. -/
-theorem stream_truncated (moreEnd : Bool) (term : Term) (vs : List JV) (v : JV) (pre suf : List Tok)
-    (hsplit : tokens v = pre ++ suf) (hproper : suf ≠ []) (hcut : pre ≠ [] ∨ term = .err) :
-    ∃ es, run moreEnd term (tokensDocs vs ++ pre) = (streamSpecDocs vs ++ es, .error) ∧ es <+: streamSpec v := by
-  obtain ⟨so, he, hp⟩ := docs_emits (me := moreEnd) (term := term) vs init pre popEnd_init
-  obtain ⟨es, hr, hpre⟩ := doc_cut (me := moreEnd) (term := term) v so pre suf hp hsplit hproper hcut
-  exact ⟨es, run_of_Runs (Emits.thenRuns he hr), hpre⟩
+theorem stream_truncated (moreEnd : Bool) (term : Term) (vs : List JV) (v : JV) (pre suf : List (Tok × Bool))
+    (hsplit : ttokens v = pre ++ suf) (hproper : suf ≠ []) (hcut : pre ≠ [] ∨ term = .err) :
+    run moreEnd term (tokensDocs vs ++ pre.map Prod.fst) =
+      (streamSpecDocs vs ++ (streamSpec v).take (completed pre), .error) := by
+  obtain ⟨so, he, hp⟩ := docs_emits (me := moreEnd) (term := term) vs init (pre.map Prod.fst) popEnd_init
+  obtain ⟨es, hr, hpre, hlen⟩ := doc_cut (me := moreEnd) (term := term) v so pre suf hp hsplit hproper hcut
+  rw [run_of_Runs (Emits.thenRuns he hr), prefix_eq_take hpre, hlen]
+
+/-- In particular the emitted events are a prefix of the document's full event list. -/
+theorem stream_truncated_prefix (moreEnd : Bool) (term : Term) (v : JV) (pre suf : List (Tok × Bool))
+    (hsplit : ttokens v = pre ++ suf) (hproper : suf ≠ []) (hcut : pre ≠ [] ∨ term = .err) :
+    (run moreEnd term (pre.map Prod.fst)).2 = .error ∧ (run moreEnd term (pre.map Prod.fst)).1 <+: streamSpec v := by
+  have h := stream_truncated moreEnd term [] v pre suf hsplit hproper hcut
+  simp only [tokensDocs, streamSpecDocs, List.nil_append] at h
+  rw [h]
+  exact ⟨rfl, List.take_prefix _ _⟩
 
 /-- Under --stream the query's inputs for a well-formed reader are exactly the `tostream`
     events of its documents, in order, then end of input. -/
@@ -186,10 +201,10 @@ theorem raw_slurp_whole (r : Reader) (rs : List Reader) (stdin : Reader) (hne : 
 example : run false .eof (tokens (.arr [.num (.int 1), .arr [], .obj [(Bytes.ofString "b", .arr [.null])], .num (.int 2)])) =
     (streamSpec (.arr [.num (.int 1), .arr [], .obj [(Bytes.ofString "b", .arr [.null])], .num (.int 2)]), .eof) :=
   stream_events false _
-example : ∃ es, run true .eof (tokensDocs [.null] ++ [.lbrack, .atom (.num (.int 1))]) =
-    (streamSpecDocs [.null] ++ es, .error) ∧ es <+: streamSpec (.arr [.num (.int 1), .num (.int 2)]) :=
-  stream_truncated true .eof [.null] (.arr [.num (.int 1), .num (.int 2)]) [.lbrack, .atom (.num (.int 1))]
-    [.atom (.num (.int 2)), .rbrack] rfl (by simp) (Or.inl (by simp))
+example : run true .eof (tokensDocs [.null] ++ [.lbrack, .atom (.num (.int 1))]) =
+    (streamSpecDocs [.null] ++ (streamSpec (.arr [.num (.int 1), .num (.int 2)])).take 1, .error) :=
+  stream_truncated true .eof [.null] (.arr [.num (.int 1), .num (.int 2)]) [(.lbrack, false), (.atom (.num (.int 1)), true)]
+    [(.atom (.num (.int 2)), true), (.rbrack, true)] rfl (by simp) (Or.inl (by simp))
 example : inputIter { slurp := true } [] { docs := [.value .null, .value (.bool true)] } = [.val (.arr [.null, .bool true])] := by
   rw [slurp_eq_inputs {} [] _ rfl]; rfl
 example : rawLines [97, 10, 98] = [[97], [98]] ∧ rawLines [97, 10] = [[97]] ∧ rawLines [10] = [[]] := by decide
